@@ -228,9 +228,14 @@ def eval_case(case):
     for f in fails:
         f['sig'] = {'decoder': case['decoder'], 'bucket': kind}
         f['detail'] = tag + ': ' + f['detail']
+    labels = [kind, case['decoder'], lab, case['code']['cls']]
+    if kind == 'optimal':
+        r = case['direction']
+        labels.append('rate>1/2' if case['error_rate'] > 0.5 else 'rate<=1/2')
+        if case.get('noise_deformation') and abs(r[0] - r[2]) > 1e-9:
+            labels.append('nonuniform-weights' + (',rate>1/2' if case['error_rate'] > 0.5 else ''))
     return {'fails': fails, 'nontrivial': False, 'nontrivial_keys': nt,
-            'labels': [kind, case['decoder'], lab, case['code']['cls']],
-            'evals': max(evals, 1)}
+            'labels': labels, 'evals': max(evals, 1)}
 
 
 @st.composite
@@ -240,10 +245,9 @@ def optimal_cases(draw, max_kernel=18, n_random=12):
     size = [draw(st.integers(2, top)), draw(st.integers(2, top))]
     # direction / rate with both flip marginals below 1/2
     r = draw(domain.directions())
-    p = draw(st.sampled_from([0.01, 0.05, 0.1, 0.2, 0.3, 0.45]))
-    hi = max(r[0] + r[1], r[2] + r[1])
-    if p * hi >= 0.5 - 1e-3:
-        p = 0.45 * 0.5 / hi
+    # (the bound is on the flip marginals p (r_x + r_y), p (r_z + r_y), not on
+    # the total rate: depolarising noise qualifies up to p = 3/4)
+    p = draw(st.sampled_from([0.01, 0.05, 0.1, 0.2, 0.3, 0.45, 0.55, 0.65, 0.74, 0.9]))
     # zero marginal -> infinite weight; keep every marginal positive so the
     # log-likelihood weights are finite (the claim is about finite weights)
     if min(r[0] + r[1], r[2] + r[1]) <= 0:
@@ -251,6 +255,17 @@ def optimal_cases(draw, max_kernel=18, n_random=12):
     nd, nk = (None, {})
     if draw(st.booleans()):
         nd, nk = draw(st.sampled_from(domain.deformations(cls)))
+    # largest flip marginal per unit rate over all Pauli relabellings a
+    # deformation can apply to a qubit
+    hi = max(r[0] + r[1], r[2] + r[1])
+    if nd == 'XY':            # Y <-> Z on every qubit
+        hi = max(r[0] + r[2], r[1] + r[2])
+    elif nd not in (None, 'XZZX'):
+        hi = max(r[0] + r[1], r[0] + r[2], r[1] + r[2])
+    # a third of the cases sit just below the bound, where one kind of edge
+    # is almost free and the optimum is most sensitive to the weights
+    if p * hi >= 0.5 - 1e-3 or draw(st.integers(0, 2)) == 0:
+        p = min(1.0, draw(st.sampled_from([0.45, 0.8, 0.9, 0.98])) * 0.5 / hi)
     return {'kind': 'optimal', 'decoder': 'MatchingDecoder', 'dparams': {},
             'code': domain.code_case(cls, size), 'direction': [float(x) for x in r],
             'noise_deformation': nd, 'noise_kwargs': nk, 'error_rate': float(p),
